@@ -1023,10 +1023,15 @@ func failedCallbacksAreNotCalledAgain(c *core.Ctx) {
 				}
 			}
 		}
-		if cb == nil || errVar == nil {
+		if cb == nil {
 			continue
 		}
 		n++
+		if errVar == nil {
+			c.Check(false, core.SSAName(fn)+"|no-call-after-a-failure", p.Pos(cb.Pos()),
+				core.SSAName(fn.Parent())+" sorts with a comparison that calls back into the script and records a failure of the call in no variable that outlives the comparison (an error declared with := inside the comparison shadows the one outside): the sort goes on calling after a failure, and the failure is not reported")
+			continue
+		}
 		tested := false
 		for _, b := range fn.Blocks {
 			if len(b.Instrs) == 0 || b == cb.Block() || !b.Dominates(cb.Block()) {
